@@ -124,6 +124,11 @@ rep_strategy = _st.sampled_from([
 rep_strategy_exact = _st.sampled_from([None, None, None, {"cd": True}, {"extra_axes": 1}, {"extra_axes": 2}, {"cd": True, "extra_axes": 2}])
 
 
+def cube_kw(rep):
+    """callers hand a plane index for files with more than two axes (the command line always passes --slice, default 0)"""
+    return {"cube_index": 0} if rep and rep.get("extra_axes") else {}
+
+
 def write_fits(path, img, hdr, dtype=np.float64, rep=None):
     h = hdr.copy()
     rep = rep or {}
